@@ -26,6 +26,7 @@ type skCtx struct {
 	szNames map[string]bool
 	named   bool   // msgp-generated style: named results, bare returns
 	resName string // slice path, named results: the name of the []byte result (`o`)
+	deep    bool   // accept recv.Field.Sub as a field
 	top     bool   // the function body itself, not a nested block
 	last    bool   // the statement is the last one of its block
 }
@@ -50,26 +51,32 @@ func (c *skCtx) unknown(n ast.Node) string { return ".unknown " + leanStr(c.src(
 
 var knownFields = map[string]bool{"Tag": true, "Timestamp": true, "Record": true, "Options": true, "Entries": true, "EventStream": true,
 	"MessageType": true, "ClientHostname": true, "SharedKeySalt": true, "SharedKeyHexDigest": true, "Username": true, "Password": true,
-	"AuthResult": true, "Reason": true, "ServerHostname": true}
+	"AuthResult": true, "Reason": true, "ServerHostname": true, "Nonce": true, "Auth": true, "Keepalive": true, "Ack": true,
+	"Options.Nonce": true, "Options.Auth": true, "Options.Keepalive": true}
 
 func fld(name string) string {
 	if knownFields[name] {
-		return "." + name
+		return "." + strings.ReplaceAll(name, ".", "")
 	}
 	return "(.other " + leanStr(name) + ")"
 }
 
-// recv.Field
+// recv.Field; with c.deep also recv.Field.Sub (msgp inlines the encoder of a pointed-to struct), named "Field.Sub"
 func (c *skCtx) recvField(e ast.Expr) (string, bool) {
 	se, ok := e.(*ast.SelectorExpr)
 	if !ok {
 		return "", false
 	}
 	id, ok := se.X.(*ast.Ident)
-	if !ok || id.Name != c.recv {
-		return "", false
+	if ok && id.Name == c.recv {
+		return se.Sel.Name, true
 	}
-	return se.Sel.Name, true
+	if c.deep {
+		if in, isIn := se.X.(*ast.SelectorExpr); isIn && isIdent(in.X, c.recv) {
+			return in.Sel.Name + "." + se.Sel.Name, true
+		}
+	}
+	return "", false
 }
 
 var zbName = regexp.MustCompile(`^zb[0-9]+$`)
@@ -553,12 +560,25 @@ func (c *encCtx) encCall(e ast.Expr) (kind, prim, field string, fallible, ok boo
 	if !isCall {
 		return
 	}
+	byteLits := func(as []ast.Expr) (string, bool) {
+		var vs []string
+		for _, a := range as {
+			bl, isBl := a.(*ast.BasicLit)
+			if !isBl || bl.Kind != token.INT {
+				return "", false
+			}
+			v, err := strconv.ParseUint(bl.Value, 0, 8)
+			if err != nil {
+				return "", false
+			}
+			vs = append(vs, fmt.Sprint(v))
+		}
+		return "[" + strings.Join(vs, ", ") + "]", len(vs) > 0
+	}
 	if id, isId := call.Fun.(*ast.Ident); isId && id.Name == "append" && !c.stream {
-		if len(call.Args) == 2 && isIdent(call.Args[0], c.acc) {
-			if bl, isBl := call.Args[1].(*ast.BasicLit); isBl && bl.Kind == token.INT {
-				if v, err := strconv.ParseUint(bl.Value, 0, 8); err == nil {
-					return "raw", fmt.Sprint(v), "", false, true
-				}
+		if len(call.Args) >= 2 && isIdent(call.Args[0], c.acc) && call.Ellipsis == token.NoPos {
+			if l, good := byteLits(call.Args[1:]); good {
+				return "raw", l, "", false, true
 			}
 		}
 		return
@@ -591,14 +611,14 @@ func (c *encCtx) encCall(e ast.Expr) (kind, prim, field string, fallible, ok boo
 			return
 		}
 		table = map[string]string{"WriteString": ".str", "WriteInt64": ".int64", "WriteIntf": ".intf", "WriteExtension": ".eventTime",
-			"WriteBytes": ".bin", "WriteNil": "nil", "WriteArrayHeader": "hdr", "Append": "raw"}
+			"WriteBytes": ".bin", "WriteBool": ".bool", "WriteNil": "nil", "WriteArrayHeader": "hdr", "Append": "raw"}
 	} else {
 		if !isIdent(se.X, "msgp") || len(args) == 0 || !isIdent(args[0], c.acc) {
 			return
 		}
 		args = args[1:]
 		table = map[string]string{"AppendString": ".str", "AppendInt64": ".int64", "AppendIntf": ".intf", "AppendExtension": ".eventTime",
-			"AppendBytes": ".bin", "AppendNil": "nil", "AppendArrayHeader": "hdr"}
+			"AppendBytes": ".bin", "AppendBool": ".bool", "AppendNil": "nil", "AppendArrayHeader": "hdr"}
 	}
 	p, found := table[name]
 	if !found {
@@ -611,12 +631,8 @@ func (c *encCtx) encCall(e ast.Expr) (kind, prim, field string, fallible, ok boo
 		}
 		return
 	case "raw":
-		if len(args) == 1 {
-			if bl, isBl := args[0].(*ast.BasicLit); isBl && bl.Kind == token.INT {
-				if v, err := strconv.ParseUint(bl.Value, 0, 8); err == nil {
-					return "raw", fmt.Sprint(v), "", false, true
-				}
-			}
+		if l, good := byteLits(args); good {
+			return "raw", l, "", false, true
 		}
 		return
 	case "hdr": // the count variable, possibly converted: sz / uint32(size)
@@ -806,7 +822,7 @@ func encoderSkeleton(fset *token.FileSet, repo string, fd *ast.FuncDecl, goName,
 		return []string{".unknown \"method not found\""}
 	}
 	par := fd.Type.Params.List[0].Names[0].Name
-	c := &encCtx{skCtx: skCtx{fset: fset, recv: recvNameOf(fd), in: par, stream: m == "EncodeMsg", ftypes: ft}, acc: par, par: par}
+	c := &encCtx{skCtx: skCtx{fset: fset, recv: recvNameOf(fd), in: par, stream: m == "EncodeMsg", ftypes: ft, deep: true}, acc: par, par: par}
 	// generated code: named results (o []byte, err error); the encoding is appended to `o`
 	if m == "MarshalMsg" && fd.Type.Results != nil && len(fd.Type.Results.List) >= 1 && len(fd.Type.Results.List[0].Names) == 1 {
 		c.acc = fd.Type.Results.List[0].Names[0].Name
@@ -893,6 +909,19 @@ func codecSkeletons(repo string) string {
 			}
 			body := encoderSkeleton(fset, repo, fd, ty.goName, m, ft)
 			fmt.Fprintf(&b, "/-- `(*%s).%s`, %s -/\ndef %s_%s : List EStmt := [\n  %s]\n\n", ty.goName, m, where, ty.lean, m, strings.Join(body, ",\n  "))
+		}
+	}
+	for _, ty := range []struct{ goName, lean string }{{"Entry", "Entry"}, {"EntryExt", "EntryExt"}, {"Ping", "Ping"}, {"Pong", "Pong"},
+		{"AckMessage", "Ack"}, {"HeloOpts", "HeloOpts"}, {"Helo", "Helo"}} {
+		ft := structFields(files, fset, ty.goName)
+		for _, m := range []string{"MarshalMsg", "EncodeMsg"} {
+			fd := methods[ty.goName+"."+m]
+			where := "not found"
+			if fd != nil {
+				where = fset.Position(fd.Pos()).String()[len(repo)+1:]
+			}
+			body := encoderSkeleton(fset, repo, fd, ty.goName, m, ft)
+			fmt.Fprintf(&b, "/-- `(%s).%s`, %s -/\ndef %s_%s : List EStmt := [\n  %s]\n\n", ty.goName, m, where, ty.lean, m, strings.Join(body, ",\n  "))
 		}
 	}
 	b.WriteString("end FV.Gen.Codec\n")
